@@ -544,3 +544,44 @@ package raft
 //@   ensures result && old(pr.State) == ProgressStateReplicate ==> pr.Next == pr.Match + 1
 //@   ensures result && old(pr.State) != ProgressStateReplicate ==> pr.Next == max(min(rejected, last + 1), 1)
 //@   modifies pr.Next, pr.Paused
+
+//@ property C03
+// ---- the persistent raft log (RocksStorage): an Append that reports success had no failed engine write ----
+// ghost(werrs, eng) counts engine writes that returned an error (interface contract of engine.KVEngine.Write)
+//@ noeffect (github.com/youzan/ZanRedisDB/engine.KVEngine).AddDeletedCnt
+//@ extern (*github.com/youzan/ZanRedisDB/raft/raftpb.Entry).Marshal func(m *Entry) ([]byte, error)
+//@   ensures result1 == nil ==> fresh(result0)
+//@ func (ms *RocksStorage) entryKey(idx uint64) []byte
+//@   trusted raft log key layout [id be64][gid be32][sep][index be64]
+//@   ensures fresh(result) && len(result) == 21
+//@ func (ms *RocksStorage) commitBatch(batch engine.WriteBatch) error
+//@   requires ms != nil && ms.entryDB != nil && batch != nil
+//@   ensures ghost(werrs, ms.entryDB) == old(ghost(werrs, ms.entryDB)) + ite(result != nil, 1, 0)
+//@   ensures ghost(commits, ms.entryDB) == old(ghost(commits, ms.entryDB)) + 1 && ghost(cputs, ms.entryDB) == old(ghost(wbputs, batch)) && ghost(wbputs, batch) == 0 && ghost(wbdels, batch) == 0
+//@   modifies ghost(commits, ms.entryDB), ghost(cputs, ms.entryDB), ghost(cdels, ms.entryDB), ghost(cver, ms.entryDB), ghost(werrs, ms.entryDB), ghost(wbputs, batch), ghost(wbdels, batch), ghost(wbver, batch)
+//@ func (ms *RocksStorage) writeEnts(batch engine.WriteBatch, es []pb.Entry) error
+//@   requires ms != nil && ms.entryDB != nil && batch != nil
+//@   ensures result == nil ==> ghost(werrs, ms.entryDB) == old(ghost(werrs, ms.entryDB))
+//@   ensures ms.entryDB == old(ms.entryDB) && ms.wb == old(ms.wb)
+//@   modifies *
+//@ loop 1
+//@   invariant ghost(werrs, ms.entryDB) == old(ghost(werrs, ms.entryDB)) && ms.entryDB == old(ms.entryDB) && ms.entryDB != nil && total == len(es)
+//@ func (ms *RocksStorage) FirstIndex() (uint64, error)
+//@   trusted cached / sought first index of the stored log
+//@   ensures result1 == nil ==> result0 >= 1
+//@ func (ms *RocksStorage) LastIndex() (uint64, error)
+//@   trusted cached / sought last index of the stored log
+//@ func (ms *RocksStorage) deleteFrom(batch engine.WriteBatch, from uint64) error
+//@   trusted buffers a delete of every stored entry with index >= from (engine iterator)
+//@   modifies ghost(wbdels, batch), ghost(wbver, batch)
+//@ noeffect (*github.com/youzan/ZanRedisDB/raft.RocksStorage).setCachedLastIndex (*github.com/youzan/ZanRedisDB/raft.RocksStorage).setCachedFirstIndex
+//@ func (ms *RocksStorage) addEntries(batch engine.WriteBatch, entries []pb.Entry) error
+//@   trusted nooverflow entry indexes are far below 2^63
+//@   requires ms != nil && ms.entryDB != nil && batch != nil && contig(entries, ite(len(entries) > 0, entries[0].Index, 0))
+//@   ensures result == nil ==> ghost(werrs, ms.entryDB) == old(ghost(werrs, ms.entryDB))
+//@   ensures ms.entryDB == old(ms.entryDB) && ms.wb == old(ms.wb)
+//@   modifies *
+//@ func (ms *RocksStorage) Append(entries []pb.Entry) error
+//@   requires ms != nil && ms.entryDB != nil && ms.wb != nil && contig(entries, ite(len(entries) > 0, entries[0].Index, 0))
+//@   ensures result == nil ==> ghost(werrs, ms.entryDB) == old(ghost(werrs, ms.entryDB))
+//@   modifies *
